@@ -549,3 +549,79 @@ func (s *Streamer) bodyLoop(b *ssa.BasicBlock) *Loop {
 	}
 	return found
 }
+
+// LoopGuard is a test in the body of a counted loop over a local table that
+// leaves the function with an error (or panics) on one outcome and stays in
+// the loop on the other, and that executes in every iteration:
+//
+//	for _, f := range fields { if len(f) > 0xFFFF { return nil, errTooLong } }
+//
+// Wherever Exit dominates, Cond had the truth value Stay in each of the
+// iterations Frames[0..N-1] (the loop's only non-failing exit is its header
+// test after N complete iterations).
+type LoopGuard struct {
+	Cond   *ssa.BinOp
+	Stay   bool
+	Frames []*Frame
+	Exit   *ssa.BasicBlock
+	At     *ssa.If
+}
+
+// LoopGuards lists the guards of the counted loops of s's function.
+func (s *Streamer) LoopGuards() []LoopGuard {
+	var out []LoopGuard
+	for _, hb := range s.Fn.Blocks {
+		if !isLoopHeader(hb) {
+			continue
+		}
+		lp, why := s.loop(hb)
+		if why != "" || lp.N == 0 {
+			continue
+		}
+		exit := hb.Succs[0]
+		if lp.blocks[exit] {
+			exit = hb.Succs[1]
+		}
+		if len(exit.Preds) != 1 {
+			continue
+		}
+		for b := range lp.blocks {
+			if b == hb || !b.Dominates(hb.Preds[lp.back]) {
+				continue
+			}
+			iff, ok := b.Instrs[len(b.Instrs)-1].(*ssa.If)
+			if !ok || len(b.Succs) != 2 {
+				continue
+			}
+			in0, in1 := lp.blocks[b.Succs[0]], lp.blocks[b.Succs[1]]
+			if in0 == in1 {
+				continue
+			}
+			out0 := b.Succs[0]
+			if in0 {
+				out0 = b.Succs[1]
+			}
+			if !failOnly(out0, lp.blocks, 0) {
+				continue
+			}
+			cond, neg := iff.Cond, false
+			for {
+				u, isU := cond.(*ssa.UnOp)
+				if !isU || u.Op != token.NOT {
+					break
+				}
+				cond, neg = u.X, !neg
+			}
+			cmp, isB := cond.(*ssa.BinOp)
+			if !isB || !isIntT(cmp.X.Type()) {
+				continue
+			}
+			g := LoopGuard{Cond: cmp, Stay: in0 != neg, Exit: exit, At: iff}
+			for k := 0; k < lp.N; k++ {
+				g.Frames = append(g.Frames, lp.frame(k))
+			}
+			out = append(out, g)
+		}
+	}
+	return out
+}
